@@ -12,6 +12,10 @@ import (
 )
 
 func main() {
+	if len(os.Args) > 2 && os.Args[1] == "rawtrace" {
+		probeRawTrace(os.Args[2])
+		return
+	}
 	if len(os.Args) > 2 && os.Args[1] == "trace" {
 		probeTrace(os.Args[2])
 		return
